@@ -53,7 +53,7 @@ Fixpoint sorted (l : list N) : bool :=
 Definition list_info (offs : list N) (v : option (list bool)) : list (bool * N) :=
   let lens := windows_len offs in
   match v with
-  | Some vs => map2 (fun b l => (b, if b then l else 0)) vs lens
+  | Some vs => map2 (fun (b : bool) (l : N) => (b, if b then l else 0)) vs lens
   | None => map (fun l => (true, l)) lens
   end.
 
